@@ -29,6 +29,18 @@ CLAIMED = {
              "are outside the expression model (tie + oracle only) — partial; mock core + host g++. Known findings K02a (first assignment fixes the type, wider later "
              "values narrowed), K02b (int / int), K02c (and/or value), K02d (-bool).",
         technique="Lean 4 simulation proof (Python vs C++ typed evaluation under the parser's declarations, induction on expressions and paths) + declared-type, CPython and firmware correspondence + value oracle", ref="4/C02"),
+    "C03": dict(
+        text="Lean theorems: (a) the transpile-time evaluator is monotone in the constant environment — a value folded from partial knowledge is the value under EVERY "
+             "completion of the environment, in particular a name-free expression has exactly one value; chained comparisons are the conjunction of adjacent comparisons; "
+             "(b) model of the constant environment (copies into branch/loop/main-loop bodies, list objects shared by reference, fold sites): for every script whose "
+             "folded names are only written by top-level statements, the emitted program observes on EVERY execution path (any branch choices, any iteration counts) what "
+             "the source observes; scripts without transpile-time constants are emitted unchanged; the unrestricted statement is proved false by four witnesses. "
+             "Ties: model evaluator vs parser._eval_const vs CPython eval; model fold sites vs the emitted text; model traces vs CPython and compiled firmware. Oracle: firmware "
+             "vs CPython on scripts with len() fold sites under run-time-decided branches, loops and the main loop; folded sleep() arguments; parameters shadowing constants.",
+        note="Trusted: Lean kernel (propext, Classical.choice, Quot.sound); the environment model covers str and list-of-int values read by len() (flash_pattern/glyph/sensor-model "
+             "sites read the same environment: oracle only) — partial; evaluator model without floats; mock core + host g++. Known finding K03a (stale folds after nested "
+             "rebinding/mutation).",
+        technique="Lean 4 theorems (monotonicity of the evaluator by mutual induction; path-by-path simulation between source and folded program with a shared-heap invariant) + evaluator/text/CPython/firmware correspondence + value oracle", ref="4/C03"),
     "C04": dict(
         text="Lean theorems relating the emitted actuator blocks (Fw) to the host classes (Host): clamping of every PWM duty / servo command / motor speed for ARBITRARY "
              "arguments and states; for every call the host accepts, equal shadow state (so all eight state queries agree), last pin level = image of the host state, "
